@@ -49,7 +49,7 @@ def bzStr (b : Bytes) : String :=
 
 /-- symbolic account name → address bytes: the name padded with `_` to 20 bytes (32 for names
 starting with `Z`); `gov` is the governance authority; `-`/`~` no address. -/
-def addrOf (name : String) : Bytes :=
+def addrOfBase (name : String) : Bytes :=
   if name = "-" ∨ name = "~" ∨ name = "" then []
   else if name = "gov" then authority
   else
@@ -57,17 +57,30 @@ def addrOf (name : String) : Bytes :=
     let n := if name.startsWith "Z" then 32 else 20
     cs ++ List.replicate (n - cs.length) 95
 
+/-- a trailing `!` on an account name = the address is SPELLED in upper-case bech32 (same account) -/
+def upOf (name : String) : Bool := name.length > 1 && name.endsWith "!"
+
+def baseName (name : String) : String := if upOf name then String.ofList name.toList.dropLast else name
+
+/-- the account bytes of a (possibly `!`-spelled) name.  The authority is recognised by its STRING
+(`IsAuthority`), so `gov!` is some account without any permission. -/
+def addrOf (name : String) : Bytes :=
+  if upOf name then (if baseName name = "gov" then authority ++ [33] else addrOfBase (baseName name))
+  else addrOfBase name
+
 def dropTrailing (x : Nat) (l : List Nat) : List Nat := (l.reverse.dropWhile (· = x)).reverse
 
 def nameOf (b : Bytes) : String :=
   if b.isEmpty then "~" else if b = authority then "gov"
   else String.ofList ((dropTrailing 95 b).map Char.ofNat)
 
+def upStr (b : Bool) : String := if b then "!" else ""
+
 def showOrder (o : Order) : String :=
-  s!"o:{if o.isBid then "b" else "a"}:{o.market}:{nameOf o.owner}:{bzStr o.assetDenom}:{o.assetAmt}:{bzStr o.priceDenom}:{o.priceAmt}:{bzStr o.ext}:{boolStr o.allowPartial}"
+  s!"o:{if o.isBid then "b" else "a"}:{o.market}:{nameOf o.owner}{upStr o.ownerUp}:{bzStr o.assetDenom}:{o.assetAmt}:{bzStr o.priceDenom}:{o.priceAmt}:{bzStr o.ext}:{boolStr o.allowPartial}"
 
 def showPayment (p : Payment) : String :=
-  s!"p:{nameOf p.source}:{p.srcAmt}:{nameOf p.target}:{p.tgtAmt}:{bzStr p.ext}"
+  s!"p:{nameOf p.source}{upStr p.sourceUp}:{p.srcAmt}:{nameOf p.target}{upStr p.targetUp}:{p.tgtAmt}:{bzStr p.ext}"
 
 def showVal : Val → String
   | .order o => showOrder o
@@ -89,7 +102,8 @@ def parseOrderFields (id : UInt64) (fs : List String) : Option Order :=
     let a ← parseNat? a
     let p ← parseNat? p
     pure { id := id, isBid := t = "b", market := UInt32.ofNat m, owner := addrOf o, assetDenom := strBz d,
-           assetAmt := a, priceDenom := strBz pd, priceAmt := p, ext := strBz x, allowPartial := ap = "1" }
+           assetAmt := a, priceDenom := strBz pd, priceAmt := p, ext := strBz x, allowPartial := ap = "1",
+           ownerUp := upOf o }
   | _ => none
 
 def parseVal (s : String) : Option Val :=
@@ -98,7 +112,8 @@ def parseVal (s : String) : Option Val :=
   | ["p", src, a, t, ta, x] => do
     let a ← parseNat? a
     let ta ← parseNat? ta
-    pure (.payment { source := addrOf src, srcAmt := a, target := addrOf t, tgtAmt := ta, ext := strBz x })
+    pure (.payment { source := addrOf src, srcAmt := a, target := addrOf t, tgtAmt := ta, ext := strBz x,
+                     sourceUp := upOf src, targetUp := upOf t })
   | [one] =>
     if one = "e" then some .empty
     else match one.toList with
@@ -128,6 +143,7 @@ def parseRaw (s : String) : Option Store :=
 def getNat (ws : List String) (k : String) : Nat := ((kv ws k).bind parseNat?).getD 0
 def getStr (ws : List String) (k : String) : String := (kv ws k).getD "-"
 def getAddr (ws : List String) (k : String) : Bytes := addrOf (getStr ws k)
+def getUp (ws : List String) (k : String) : Bool := upOf (getStr ws k)
 def getU64 (ws : List String) (k : String) : UInt64 := UInt64.ofNat (getNat ws k)
 def getU32 (ws : List String) (k : String) : UInt32 := UInt32.ofNat (getNat ws k)
 
@@ -136,21 +152,24 @@ def parseOp (ws : List String) : Option Op :=
   | "mkmarket" :: r => some (.mkMarket (getU32 r "id") (getStr r "name"))
   | "close" :: r => some (.closeMarket (getU32 r "m"))
   | "accepting" :: r => some (.setAccepting (getU32 r "m") (getStr r "v" = "1") (getAddr r "by"))
+  | "acceptingc" :: r => some (.setAcceptingCommitments (getU32 r "m") (getStr r "v" = "1") (getAddr r "by"))
   | "ask" :: r | "bid" :: r =>
     some (.create { id := 0, isBid := ws.head? = some "bid", market := getU32 r "m", owner := getAddr r "o",
                     assetDenom := strBz (getStr r "d"), assetAmt := getNat r "a",
                     priceDenom := strBz (getStr r "pd"), priceAmt := getNat r "p",
-                    ext := strBz (getStr r "x"), allowPartial := getStr r "ap" = "1" })
-  | "cancel" :: r => some (.cancel (getU64 r "id") (getAddr r "by"))
+                    ext := strBz (getStr r "x"), allowPartial := getStr r "ap" = "1",
+                    ownerUp := getUp r "o" })
+  | "cancel" :: r => some (.cancel (getU64 r "id") (getAddr r "by") (getUp r "by"))
   | "setext" :: r => some (.setExt (getU32 r "m") (getU64 r "id") (strBz (getStr r "x")) (getAddr r "by"))
   | "settle" :: r => some (.settle (getU32 r "m") (getU64 r "a") (getU64 r "b") (getStr r "ep" = "1") (getAddr r "by"))
   | "commit" :: r => some (.commit (getU32 r "m") (getAddr r "o") (getNat r "a"))
   | "release" :: r => some (.release (getU32 r "m") (getAddr r "o") (getNat r "a") (getAddr r "by"))
   | "pay" :: r => some (.pay { source := getAddr r "s", srcAmt := getNat r "a", target := getAddr r "t",
-                               tgtAmt := getNat r "ta", ext := strBz (getStr r "x") })
-  | "payaccept" :: r => some (.payAccept (getAddr r "s") (strBz (getStr r "x")) (getAddr r "t"))
+                               tgtAmt := getNat r "ta", ext := strBz (getStr r "x"),
+                               sourceUp := getUp r "s", targetUp := getUp r "t" })
+  | "payaccept" :: r => some (.payAccept (getAddr r "s") (strBz (getStr r "x")) (getAddr r "t") (getUp r "s") (getUp r "t"))
   | "payreject" :: r => some (.payReject (getAddr r "t") (getAddr r "s") (strBz (getStr r "x")))
-  | "payrejectall" :: r => some (.payRejectAll (getAddr r "t") ((splitList (getStr r "s")).map addrOf))
+  | "payrejectall" :: r => some (.payRejectAll (getAddr r "t") ((splitList (getStr r "s")).map fun n => (addrOf n, upOf n)))
   | "paycancel" :: r => some (.payCancel (getAddr r "s") ((splitList (getStr r "x")).map strBz))
   | "paytarget" :: r => some (.payTarget (getAddr r "s") (strBz (getStr r "x")) (getAddr r "t"))
   | _ => none
@@ -425,6 +444,46 @@ def checkLook (impl : String) : String :=
           | some c => c
           | none => if ¬ tgtLists.flatten.Nodup then "fail:payment_under_two_targets" else "ok"
 
+/-- "payments are listed only under their current target", judged against the records the implementation
+dumped: the by-target listing of every queried account is exactly the dumped payments whose target is
+that ACCOUNT (bytes — whatever the spelling of the stored string), in key order. -/
+def checkLookTargets (s : Store) (impl : String) : Option String :=
+  (words impl).findSome? fun w =>
+    match w.splitOn "=" with
+    | [k, v] =>
+      (match k.splitOn "." with
+       | ["pt", t] =>
+         let got := splitList v ","
+         let spec := (specPayments s (.target (addrOf t)) false).map payItem
+         if got = spec then none
+         else if spec.any (fun x => x ∉ got) then some "fail:payments_by_target_missing"
+         else if got.any (fun x => x ∉ spec) then some "fail:payments_by_target_extra"
+         else some "fail:payments_by_target_order"
+       | _ => none)
+    | _ => none
+
+/-- right after an accepted governance closure of market `m`: no lookup lists an order or a commitment
+of that market any more (`all`, by market, by external id; the by-owner / by-asset lists are tied to
+`all` by `checkLook`). -/
+def checkLookClosed (m : Nat) (impl : String) : Option String :=
+  let ws := words impl
+  let ms := toString m
+  let orders := ((kv ws "all").map (fun v => splitList v ",")).getD []
+  if orders.any (fun o => (o.splitOn ":")[1]? = some ms) then some "fail:closed_market_lists_orders"
+  else
+    ws.findSome? fun w =>
+      match w.splitOn "=" with
+      | [k, v] =>
+        (match k.splitOn "." with
+         | ["m", m'] => if m' = ms ∧ v ≠ "-" then some "fail:closed_market_lists_orders" else none
+         | "x" :: m' :: _ => if m' = ms ∧ v ≠ "-" then some "fail:closed_market_lists_orders" else none
+         | ["cm", m'] => if m' = ms ∧ v ≠ "-" then some "fail:closed_market_lists_commitments" else none
+         | ["call"] =>
+           if (splitList v ",").any (fun c => (c.splitOn ":").head? = some ms) then
+             some "fail:closed_market_lists_commitments" else none
+         | _ => none)
+      | _ => none
+
 /-- the page listing `<items>;<nk>;<total>/…` of a `q` line, parsed -/
 def parsePages (out : String) : Option (List (List String × String × Nat)) :=
   match words out with
@@ -473,7 +532,7 @@ def checkQ (s : Store) (q : Q) (offsetMode : Bool) (impl : String) : String :=
             toString o.id = id ∧ isProperPrefixStr q.arg (bzStr o.assetDenom)) then
         "fail:byAsset_lists_other_denom"
       else if q.after = 18446744073709551615 ∧ q.rev ∧ missing.isEmpty then "fail:after_max_reverse_lists_all"
-      else if q.kind = "paysrc" ∧ extras.isEmpty ∧ missing = [s!"{q.arg}:~"] then
+      else if q.kind = "paysrc" ∧ extras.isEmpty ∧ missing = [s!"{baseName q.arg}:~"] then
         "fail:paysrc_paging_skips_empty_external_id"
       else if ¬ missing.isEmpty then "fail:listing_missing"
       else if ¬ extras.isEmpty then "fail:listing_extra"
@@ -518,8 +577,10 @@ def checkAcceptedCreate (old : Store) (ws : List String) : Option String :=
 a rejected message changes nothing; an accepted creation adds one record and touches no other. -/
 def checkFrame (old new : Store) (ws : List String) (res : String) : Option String :=
   if res.startsWith "ok" then
-    (match ws.head? with
-     | some "pay" | some "ask" | some "bid" => checkCreated old new
+    (match ws with
+     | "pay" :: _ | "ask" :: _ | "bid" :: _ => checkCreated old new
+     -- an accepted governance closure: the documented effect, on the dump after it
+     | "close" :: r => checkClosed new (getU32 r "m")
      | _ => none)
   else if res.startsWith "err" then
     (if old = new then none else some "rejected_changed_state")
@@ -557,6 +618,8 @@ structure DState where
   prevKv : Option Store := none
   /-- the messages since that dump, with the implementation's answers (newest first) -/
   muts : List (List String × String) := []
+  /-- the market whose governance closure the implementation accepted as the LAST accepted message -/
+  closed : Option Nat := none
 
 def driver : Driver where
   σ := DState
@@ -581,7 +644,17 @@ def driver : Driver where
               | _, _ => "ok"
       ({ d with implKv := parsed, prevKv := parsed, muts := [] }, showRaw d.st.kv, v)
     | "look" :: r =>
-      (d, lookLine d.st.kv r, match impl with | some i => checkLook i | none => "-")
+      let v := match impl with
+        | none => "-"
+        | some i =>
+          let v := checkLook i
+          if v ≠ "ok" then v else
+          match d.implKv.bind (fun s => checkLookTargets s i) with
+          | some c => c
+          | none => match d.closed.bind (fun m => checkLookClosed m i) with
+            | some c => c
+            | none => "ok"
+      (d, lookLine d.st.kv r, v)
     | "holds" :: r =>
       let ow := splitList (getStr r "ow")
       let v := match impl, d.implKv with
@@ -642,7 +715,9 @@ def driver : Driver where
            | none => if v = "-" ∧ ws.head? ∈ [some "pay", some "setext"] then "ok" else v)
         | none => v
       let d1 := { d1 with muts := (ws, impl.getD "") :: d1.muts,
-                          implKv := if implOk then none else d1.implKv }
+                          implKv := if implOk then none else d1.implKv,
+                          closed := if implOk then (if ws.head? = some "close" then some (getNat ws.tail "m") else none)
+                                    else d1.closed }
       match parseOp ws with
       | none => (d1, "bad-op", v)
       | some o =>
